@@ -586,4 +586,134 @@ theorem resume_cnt (g : Graph) (hwf : GraphWF g) (hnr : ∀ n, (g.node n).object
     · have h1 := contEff_total hnr hc hT ba.nodesLen
       omega
 
+/-! ## runs of the only worker -/
+
+/-- static hypotheses: one worker, a pre-parsed (`noFlatB`: no flat node but the shared root) acyclic graph with edges
+recorded at both ends and within range, registers for every class -/
+structure Static (g : Graph) (ncls : Nat) : Prop where
+  one : g.workers.length = 1
+  ranked : Term.rankedB g = true
+  sym : edgeSymB g = true
+  flat : Term.noFlatB g = true
+  wf : graphWF g = true
+  cls : ∀ n, n < g.nodes.length → (g.node n).cls < ncls
+
+/-- the run of the only worker: one `resume` per entry (outcome of the awaited test, fuel of the block) -/
+def runSteps (g : Graph) (s : State) (steps : List (Outcome × Nat)) : State :=
+  steps.foldl (fun s st => (resume g s 0 st.1 st.2).1) s
+
+/-- the invariant of such runs -/
+structure GInv (g : Graph) (ncls : Nat) (store : List (String × List (String × String))) (s : State) : Prop where
+  reachP : ReachableP g ncls store s
+  reachF : ReachableF g ncls store s
+  occ : (s.wd 0).occAt = []
+  wait : ∀ n ph dir uid tag wait, (s.wd 0).pc = .test n ph dir uid tag wait → wait ≤ 10
+
+theorem bound_pos (g : Graph) : 0 < Term.bound g := by unfold Term.bound; omega
+
+theorem ginv_init {g : Graph} {ncls : Nat} (st : Static g ncls) (store : List (String × List (String × String))) :
+    GInv g ncls store (initState g ncls store []) := by
+  have hwd : (initState g ncls store []).wd 0 = { path := [g.root] } := by
+    have hv : 0 < g.workers.length := by rw [st.one]; exact Nat.one_pos
+    unfold initState State.wd
+    simp only [List.getD_eq_getElem?_getD, List.getElem?_map, List.getElem?_eq_getElem hv]
+    rfl
+  refine ⟨.init [], .init [], by rw [hwd], fun n ph dir uid tag wait e => ?_⟩
+  rw [hwd] at e; cases e
+
+theorem ginv_step {g : Graph} {ncls : Nat} (st : Static g ncls) {store : List (String × List (String × String))} {s : State}
+    (h : GInv g ncls store s) (out : Outcome) (fuel : Nat) (hf : Term.bound g ≤ fuel) :
+    GInv g ncls store (resume g s 0 out fuel).1 ∧ pcFinal ((resume g s 0 out fuel).1.wd 0).pc = true := by
+  have hf0 : 0 < fuel := Nat.lt_of_lt_of_le (bound_pos g) hf
+  have hw : 0 < g.workers.length := by rw [st.one]; exact Nat.one_pos
+  have hsym := edgeSymB_sound st.sym
+  have hr := Term.rankedB_sound st.ranked
+  have b := h.reachP.reachableR.basic st.wf
+  obtain ⟨x1, x2⟩ := resume_single g (Term.depth g) hr hsym st.one s out fuel hf (h.reachF.pinv hsym)
+    (Term.reachable_tinv hr hsym st.cls h.reachF) (Term.explored_of_noFlat st.flat s)
+  refine ⟨⟨.step 0 out fuel h.reachP hw hf0 (not_overWaited_of_nil h.occ), .step s 0 out fuel h.reachF hw hf0, ?_, ?_⟩, x1⟩
+  · rw [x2.occAt]; exact h.occ
+  · exact resume_wait g (GraphWF.of_bool st.wf) s 0 out fuel hf0 (by rw [b.workersLen]; exact hw) (b.paths 0) h.wait
+
+theorem resume_over (g : Graph) (s : State) (out : Outcome) (fuel : Nat) (h : isOver (s.wd 0).pc = true) :
+    (resume g s 0 out fuel).1 = s := by
+  unfold resume
+  split
+  · next heq => rw [heq] at h; cases h
+  · next heq => rw [heq] at h; cases h
+  · next heq => rw [heq] at h; cases h
+  · rfl
+  · rfl
+
+theorem runSteps_over (g : Graph) (steps : List (Outcome × Nat)) (s : State) (h : isOver (s.wd 0).pc = true) :
+    runSteps g s steps = s := by
+  induction steps with
+  | nil => rfl
+  | cons a r ih =>
+    unfold runSteps at ih ⊢
+    rw [List.foldl_cons, resume_over g s a.1 a.2 h]
+    exact ih
+
+/-- along every run: the invariant holds, and after at least one step the worker is inside a test, done or dead -/
+theorem run_ginv {g : Graph} {ncls : Nat} (st : Static g ncls) {store : List (String × List (String × String))}
+    (steps : List (Outcome × Nat)) (s : State) (h : GInv g ncls store s) (hfuel : ∀ x ∈ steps, Term.bound g ≤ x.2) :
+    GInv g ncls store (runSteps g s steps) ∧ (steps ≠ [] → pcFinal ((runSteps g s steps).wd 0).pc = true) := by
+  induction steps generalizing s with
+  | nil => exact ⟨h, fun h0 => absurd rfl h0⟩
+  | cons a r ih =>
+    obtain ⟨x1, x2⟩ := ginv_step st h a.1 a.2 (hfuel a List.mem_cons_self)
+    obtain ⟨y1, y2⟩ := ih _ x1 (fun x hx => hfuel x (List.mem_cons_of_mem _ hx))
+    refine ⟨y1, fun _ => ?_⟩
+    cases r with
+    | nil => exact x2
+    | cons b r' => exact y2 (by simp)
+
+/-- along every run that is not over: the counter has grown by at least the number of steps -/
+theorem run_cnt {g : Graph} {ncls : Nat} (st : Static g ncls) (hnr : noRootsB g = true)
+    {store : List (String × List (String × String))} (steps : List (Outcome × Nat)) (s : State)
+    (h : GInv g ncls store s) (hfuel : ∀ x ∈ steps, Term.bound g ≤ x.2)
+    (hno : isOver ((runSteps g s steps).wd 0).pc = false) : cnt g s + steps.length ≤ cnt g (runSteps g s steps) := by
+  induction steps generalizing s with
+  | nil => exact Nat.le_refl _
+  | cons a r ih =>
+    have hfa := hfuel a List.mem_cons_self
+    obtain ⟨x1, x2⟩ := ginv_step st h a.1 a.2 hfa
+    have hrun : runSteps g s (a :: r) = runSteps g (resume g s 0 a.1 a.2).1 r := rfl
+    rw [hrun] at hno ⊢
+    by_cases hov : isOver ((resume g s 0 a.1 a.2).1.wd 0).pc = true
+    · rw [runSteps_over g r _ hov] at hno
+      rw [hov] at hno; cases hno
+    · have hT := isTest_of_final x2 (by simpa using hov)
+      have hw : 0 < g.workers.length := by rw [st.one]; exact Nat.one_pos
+      have c1 := resume_cnt g (GraphWF.of_bool st.wf) (noRoots_spec hnr) s (h.reachP.reachableR.basic st.wf) a.1 a.2
+        (Nat.lt_of_lt_of_le (bound_pos g) hfa) hw h.wait hT
+      have c2 := ih _ x1 (fun x hx => hfuel x (List.mem_cons_of_mem _ hx)) hno
+      simp only [List.length_cons]
+      omega
+
+theorem pcTerm_le {pc : Pc} (h : ∀ n ph dir uid tag wait, pc = .test n ph dir uid tag wait → wait ≤ 10) : pcTerm pc ≤ 22 := by
+  cases pc with
+  | test n ph dir uid tag wait =>
+    have := h n ph dir uid tag wait rfl
+    cases ph <;> simp only [pcTerm] <;> omega
+  | _ => simp [pcTerm]
+
+/-- **Termination across suspensions, given a bound on the number of results**: when no reachable state has more than
+`R` results, the worker is done or dead after any `23·R + 23` steps. -/
+theorem run_over {g : Graph} {ncls : Nat} (st : Static g ncls) (hnr : noRootsB g = true)
+    (store : List (String × List (String × String))) (R : Nat)
+    (hR : ∀ s, ReachableP g ncls store s → total g s ≤ R)
+    (steps : List (Outcome × Nat)) (hfuel : ∀ x ∈ steps, Term.bound g ≤ x.2) (hlen : 23 * R + 23 ≤ steps.length) :
+    isOver ((runSteps g (initState g ncls store []) steps).wd 0).pc = true := by
+  cases hov : isOver ((runSteps g (initState g ncls store []) steps).wd 0).pc with
+  | true => rfl
+  | false =>
+    exfalso
+    have c := run_cnt st hnr steps _ (ginv_init st store) hfuel hov
+    obtain ⟨y, _⟩ := run_ginv st steps _ (ginv_init st store) hfuel
+    have h1 := hR _ y.reachP
+    have h2 := pcTerm_le y.wait
+    unfold cnt at c
+    omega
+
 end I2N.Trav.Global
